@@ -174,9 +174,14 @@ class VGen:
         ctx.block()
 
 
-def task(prop, seed, size, cfgbins, which='avx2'):
+def make(seed, size, which='avx2'):
     ctx = core.Ctx(seed, prefix='w%d_' % (seed % 100000))
     VGen(ctx, vm.Avx2 if which == 'avx2' else vm.Ifma).run(size)
+    return ctx
+
+
+def task(prop, seed, size, cfgbins, which='avx2'):
+    ctx = make(seed, size, which=which)
     return core.run_and_judge(prop, ctx, cfgbins, compare=False)
 
 
